@@ -62,13 +62,13 @@ def arrivals (s : State) (R : Remote) : Ev → List Wire
   | _ => []
 
 /-- how many messages leave `R`'s queue (at its head) in event `ev`: one when an ACK/RST from `R`
-(not a duplicate request; layer not shut down) carries the ID of the exchange in flight; all of
+(empty, or an ACK with a response code; layer not shut down) carries the ID of the exchange in flight; all of
 them when `R` errors, the exchange in flight gives up, or the library shuts down -/
 def departures (s : State) (R : Remote) : Ev → Nat
   | .recv remote _ w =>
     if s.shutMsg then 0
     else if isDup s remote w then 0
-    else if (w.mtype == .ack || w.mtype == .rst) && remote == R &&
+    else if fitsReply w && remote == R &&
         (findExchange s remote w.mid).isSome then 1
     else 0
   | .error remote => if s.shutMsg then 0 else if remote == R then (pending s R).length else 0
@@ -633,9 +633,13 @@ theorem NoSend_tokenProcessRequest (s : State) (remote : Remote) (w : Wire) :
 theorem processRequest_Neutral (s : State) (remote : Remote) (w : Wire) (R : Remote) :
     Neutral s (processRequest s remote w).1 (processRequest s remote w).2 R := by
   refine Neutral.of_tables (processRequest_tables s remote w).1 (processRequest_tables s remote w).2 ?_
-  apply conSends_of_NoSend
   unfold processRequest
-  exact NoSend_tokenProcessRequest _ _ _
+  simp only
+  rw [conSends_append, conSends_of_NoSend (NoSend_tokenProcessRequest _ _ _), List.append_nil]
+  unfold fireEmptyAck
+  split
+  · rfl
+  · simp [sendBare, sendInitially, conSends]
 
 theorem processResponse_Neutral (s : State) (remote : Remote) (w : Wire) (R : Remote) :
     Neutral s (processResponse s remote w).1 (processResponse s remote w).2.1 R :=
@@ -725,7 +729,7 @@ theorem recv_Spec {s : State} (hi : Inv s) (hq : QInv s) (hsm : s.shutMsg = fals
     rw [this]
     exact Spec.of_neutral (recvDup_Neutral hi remote w R)
   · -- the entry added to the de-duplication table touches neither exchanges nor back-logs
-    have h0 : ∃ s0 : State, s0 = (if isRequest w.code = true then
+    have h0 : ∃ s0 : State, s0 = (if dedupable w = true then
           { s with recent := s.recent ++ [{ remote, mid := w.mid, reply := none,
                                             expiry := s.now + s.cfg.exchangeLifetime }] } else s) ∧
         s0.exchanges = s.exchanges ∧ s0.backlogs = s.backlogs ∧ Inv s0 ∧ QInv s0 := by
@@ -742,7 +746,7 @@ theorem recv_Spec {s : State} (hi : Inv s) (hq : QInv s) (hsm : s.shutMsg = fals
     have hp0 : pending s0 R = pending s R := pending_of_tables he0 hb0 R
     have hf0 : findExchange s0 remote w.mid = findExchange s remote w.mid := by
       simp only [findExchange, he0]
-    by_cases hack : (w.mtype == .ack || w.mtype == .rst) = true
+    by_cases hack : fitsReply w = true
     · have hc : recv s remote mcLocal w =
           ((recvCode (removeExchange s0 remote w).1 remote mcLocal w).1,
            (removeExchange s0 remote w).2 ++ (recvCode (removeExchange s0 remote w).1 remote mcLocal w).2) := by
